@@ -62,9 +62,22 @@ def node_tree():
     return _TREE
 
 
+_REL = [False]        # relative-operand mode: node operands are written relative to the context item /r
+
+
+def rel_path(path):
+    if path == '/':
+        return '/'
+    if path == '/r':
+        return '.'
+    return path[3:] if path.startswith('/r/') else path
+
+
 def evalx(expr, ver, variables=None, item=None):
     parser = E.PARSERS[ver](namespaces=NS)
     tok = parser.parse(expr)
+    if item is None and _REL[0]:
+        item = [c for c in node_tree() if getattr(c, 'node_kind', '') == 'element'][0]
     ctx = XPathContext(root=node_tree(), item=item, variables=variables)
     return tok.evaluate(ctx)
 
@@ -303,7 +316,7 @@ def item_expr(x):
     if x[0] in ('a',):
         return x[2]
     if x[0] == 'n':
-        return x[3]
+        return rel_path(x[3]) if _REL[0] else x[3]
     if x[0] == 'f':
         return x[3]
     if x[0] == 'm':
@@ -526,8 +539,11 @@ def g_judge(r):
     sp, spname = g_spacer(r)
     pi_quote = r.random() < 0.3
     text = M.render(st, PREFIXES, sp, pi_quote)
-    return {'ver': ver, 'v': items, 't': st, 'text': text, 'via': r.choice(['inline', 'inline', 'var']),
+    case = {'ver': ver, 'v': items, 't': st, 'text': text, 'via': r.choice(['inline', 'inline', 'var']),
             'sp': spname}
+    if case['via'] == 'inline' and any(x[0] == 'n' for x in items) and r.random() < 0.5:
+        case['rel'] = True
+    return case
 
 
 def type_variants(x):
@@ -1203,6 +1219,27 @@ def same_items(val, res, by_identity):
 
 
 def run_judge(case, out):
+    """`rel` cases write the node operands relative to the context item (`a[1]`, `.`, `@a` for /r/a[1], /r, /r/@a):
+    the judged value is the same, so is the expected verdict; a verdict that is wrong only in the relative form is
+    a focus defect of the judging expression (the operand's later items evaluated against an item the judgement
+    itself moved) and gets its own key."""
+    if not case.get('rel'):
+        return _run_judge(case, out)
+    _REL[0] = True
+    try:
+        _run_judge(case, out)
+    finally:
+        _REL[0] = False
+    if out.fails:
+        ref = Outcome()
+        _run_judge(case, ref)
+        if not ref.fails:
+            judges = sorted({k.split('/')[1] for k, _ in out.fails})
+            det = out.fails[0][1]
+            out.fails[:] = [('C18/%s/relative-operand-judged-differently-from-absolute' % j, det) for j in judges]
+
+
+def _run_judge(case, out):
     ver, via, st, text = case['ver'], case['via'], case['t'], case['text']
     spec = case['v']
     items = [strip_item(x) for x in spec]
